@@ -678,6 +678,8 @@ RULES = {
     "R3w": Rule("R3w", "(s << 1) + q -> Add::add(Shl::shl(s, 1), q)  (operator definitions)", "( s << 1 ) + q", "Add :: add ( Shl :: shl ( s , 1 ) , q )"),
     "R3x": Rule("R3x", "self / s.pow(n_min_1) -> Div::div(self, s.pow(n_min_1))", "self / s . pow ( n_min_1 )", "Div :: div ( self , s . pow ( n_min_1 ) )"),
     "R3y": Rule("R3y", "n_min_1 * s + q -> Add::add(Mul::mul(n_min_1, s), q)", "n_min_1 * s + q", "Add :: add ( Mul :: mul ( n_min_1 , s ) , q )"),
+    "R3z": Rule("R3z", "&*self / other -> Div::div(&*self, other)", "& * self / other", "Div :: div ( & * self , other )"),
+    "R3zr": Rule("R3zr", "&*self % other -> Rem::rem(&*self, other)", "& * self % other", "Rem :: rem ( & * self , other )"),
     "R3i": Rule("R3i", "rem.into() -> From::from(rem)  (std: blanket `impl Into<U> for T where U: From<T>`)", "rem . into ( )", "From :: from ( rem )"),
     "R3o": Rule("R3o", "One::one() -> BigUint::one()  (the impl selected by the return type)", "One :: one ( )", "BigUint :: one ( )"),
     "R12g": Rule("R12g", "BigDigit::from_u128(x) -> __digit_from_u128(x)  (num_traits::FromPrimitive on u64: external crate; helper carries the assumed contract)",
